@@ -49,10 +49,12 @@ theorem taikoLoop_lengths (O : TaikoOps α β) :
                 simp only [List.length_eraseIdx, hl]
         · exact ih _ _ _ _ hl h
 
-/-- With one sound per object and a generator that always yields at least one hit (the tick loop
-starts at `j = start_time`, which satisfies its own bound), the loop neither panics nor runs out of
+/-- With one sound per object and a generator that yields at least one hit for every slider that
+is converted (the tick loop starts at `j = start_time`, which satisfies its own bound — proved for
+the exact-arithmetic model in `Lemmas/TaikoTicks.lean`), the loop neither panics nor runs out of
 fuel: one iteration per original object. -/
-theorem taikoLoop_total (O : TaikoOps α β) (hgen : ∀ o s, O.generate o s ≠ []) :
+theorem taikoLoop_total (O : TaikoOps α β)
+    (hgen : ∀ o s, O.shouldConvert o = true → O.generate o s ≠ []) :
     ∀ (fuel idx : Nat) (objs : List α) (sounds : List β),
       objs.length = sounds.length → objs.length - idx < fuel →
       ∃ r, taikoLoop O fuel idx objs sounds = some r := by
@@ -71,10 +73,11 @@ theorem taikoLoop_total (O : TaikoOps α β) (hgen : ∀ o s, O.generate o s ≠
       · exact ih _ _ _ hl (by omega)
       · exact ih _ _ _ (by simpa using hl) (by simp only [List.length_set]; omega)
       · split
-        · have hs : idx < sounds.length := by omega
+        · rename_i hsc
+          have hs : idx < sounds.length := by omega
           rw [List.getElem?_eq_getElem hs]
           simp only
-          have hne := hgen o sounds[idx]
+          have hne := hgen o sounds[idx] hsc
           have hpos : (O.generate o sounds[idx]).length ≥ 1 := by
             cases hg : O.generate o sounds[idx] with
             | nil => exact absurd hg hne
